@@ -41,6 +41,7 @@ type HarnessSpec struct {
 	AllowGo      []string            `json:"allow_go"`
 	MapOrders    bool                `json:"map_orders"`
 	ConcretizeDivisors bool          `json:"concretize_divisors"`
+	ConcretizeResults []string       `json:"concretize_results"`
 	Limits       map[string]int      `json:"limits"`
 	QueryMs      int                 `json:"query_timeout_ms"`
 	Solver       string              `json:"solver"`
@@ -60,6 +61,7 @@ type Props struct {
 	Bounds      map[string]string `json:"bounds"`
 	Outside     []string          `json:"outside_claim"`
 	BuildTags   string            `json:"build_tags"`
+	ConcretizeResults []string    `json:"concretize_results"`
 }
 
 type KnownFinding struct {
@@ -305,6 +307,7 @@ func cmdCheck(args []string) {
 				ExpectPanics: h.ExpectPanics,
 				MapOrders:    h.MapOrders,
 				ConcretizeDivisors: h.ConcretizeDivisors,
+				ConcretizeResults: append(append([]string{}, props.ConcretizeResults...), h.ConcretizeResults...),
 				Params:       ts.Params,
 				Lim:          lim,
 				Trace:        *trace,
@@ -365,6 +368,11 @@ func cmdCheck(args []string) {
 		pureSMT = append(pureSMT, runSMTHarness(h, ts, tier))
 	}
 	pprof.StopCPUProfile()
+	if mp := os.Getenv("GOSYM_MEMPROFILE"); mp != "" {
+		f, _ := os.Create(mp)
+		pprof.WriteHeapProfile(f)
+		f.Close()
+	}
 	code := conclude(id, tier, seed, &props, outcomes, pureSMT, loadS, time.Since(t0).Seconds(), !*noEvidence, *only != "")
 	os.Exit(code)
 }
